@@ -58,6 +58,7 @@ Record urec := mkU {
   migs : nat;           (* migration handling progress: 0 idle, 1 after the request load, 2 target loaded, 3 pool changed *)
   jw : jwake;
   fresh : bool;         (* true until the function has been entered in this incarnation *)
+  cbother : option nat; (* resume_suspend_to callback: the unit that was resumed *)
   (* ghost *)
   cnt : list nat;       (* pools whose num_blocked currently count this unit (one entry per outstanding increment:
                            a resumed unit may block again before its resumer has decremented) *)
@@ -73,7 +74,7 @@ Record st := mkS {
   seen : nat -> nat -> bool   (* seen a u: actor a's last state load of unit u returned TERMINATED *)
 }.
 
-Definition u0 : urec := mkU UNone 0 0 false false false false false None None 0 JW0 true [] 0 0 false.
+Definition u0 : urec := mkU UNone 0 0 false false false false false None None 0 JW0 true None [] 0 0 false.
 Definition init : st := mkS (fun _ => u0) (fun _ => mkP [] 0) (fun _ _ => false).
 
 Definition upd {A} (f : nat -> A) (t : nat) (v : A) : nat -> A :=
@@ -86,28 +87,31 @@ Definition set_p (s : st) (p : nat) (r : prec) : st := mkS (un s) (upd (po s) p 
 
 Definition with_ust (r : urec) (x : ustate) : urec :=
   mkU x (ost r) (upool r) (isult r) (named r) (rjoin r) (rcancel r) (rmig r) (link r) (migt r) (migs r) (jw r)
-      (fresh r) (cnt r) (starts r) (fins r) (adopted r).
+      (fresh r) (cbother r) (cnt r) (starts r) (fins r) (adopted r).
 Definition with_ust_ost (r : urec) (x : ustate) (o : Z) : urec :=
   mkU x o (upool r) (isult r) (named r) (rjoin r) (rcancel r) (rmig r) (link r) (migt r) (migs r) (jw r)
-      (fresh r) (cnt r) (starts r) (fins r) (adopted r).
+      (fresh r) (cbother r) (cnt r) (starts r) (fins r) (adopted r).
 Definition with_jw (r : urec) (j : jwake) : urec :=
   mkU (ust r) (ost r) (upool r) (isult r) (named r) (rjoin r) (rcancel r) (rmig r) (link r) (migt r) (migs r) j
-      (fresh r) (cnt r) (starts r) (fins r) (adopted r).
+      (fresh r) (cbother r) (cnt r) (starts r) (fins r) (adopted r).
 Definition with_pool (r : urec) (p : nat) : urec :=
   mkU (ust r) (ost r) p (isult r) (named r) (rjoin r) (rcancel r) (rmig r) (link r) (migt r) (migs r) (jw r)
-      (fresh r) (cnt r) (starts r) (fins r) (adopted r).
+      (fresh r) (cbother r) (cnt r) (starts r) (fins r) (adopted r).
 Definition with_req (r : urec) (j c m : bool) : urec :=
   mkU (ust r) (ost r) (upool r) (isult r) (named r) j c m (link r) (migt r) (migs r) (jw r)
-      (fresh r) (cnt r) (starts r) (fins r) (adopted r).
+      (fresh r) (cbother r) (cnt r) (starts r) (fins r) (adopted r).
 Definition with_link (r : urec) (l : option nat) : urec :=
   mkU (ust r) (ost r) (upool r) (isult r) (named r) (rjoin r) (rcancel r) (rmig r) l (migt r) (migs r) (jw r)
-      (fresh r) (cnt r) (starts r) (fins r) (adopted r).
+      (fresh r) (cbother r) (cnt r) (starts r) (fins r) (adopted r).
 Definition with_mig (r : urec) (t : option nat) (g : nat) : urec :=
   mkU (ust r) (ost r) (upool r) (isult r) (named r) (rjoin r) (rcancel r) (rmig r) (link r) t g (jw r)
-      (fresh r) (cnt r) (starts r) (fins r) (adopted r).
+      (fresh r) (cbother r) (cnt r) (starts r) (fins r) (adopted r).
+Definition with_other (r : urec) (o : option nat) : urec :=
+  mkU (ust r) (ost r) (upool r) (isult r) (named r) (rjoin r) (rcancel r) (rmig r) (link r) (migt r) (migs r) (jw r)
+      (fresh r) o (cnt r) (starts r) (fins r) (adopted r).
 Definition with_cnt (r : urec) (c : list nat) : urec :=
   mkU (ust r) (ost r) (upool r) (isult r) (named r) (rjoin r) (rcancel r) (rmig r) (link r) (migt r) (migs r) (jw r)
-      (fresh r) c (starts r) (fins r) (adopted r).
+      (fresh r) (cbother r) c (starts r) (fins r) (adopted r).
 
 Inductive ev :=
 | EAdopt (u p : nat) (ult : bool)          (* a unit that already runs when the history starts *)
@@ -149,7 +153,7 @@ Definition inb (x : nat) (l : list nat) : bool := existsb (Nat.eqb x) l.
 Definition must_count (x : ustate) : bool :=
   match x with
   | UBlocked | UResuming => true
-  | UCbS k (S _) => suspend_kind k
+  | UCbS k (S (S _)) => suspend_kind k
   | _ => false
   end.
 
@@ -166,19 +170,19 @@ Definition step (s : st) (e : ev) : option st :=
   match e with
   | EAdopt u p ult =>
       match ust (un s u) with
-      | UNone => Some (set_u s u (mkU URunning 1 p ult true false false false None None 0 JW0 false [] 1 0 true))
+      | UNone => Some (set_u s u (mkU URunning 1 p ult true false false false None None 0 JW0 false None [] 1 0 true))
       | _ => None
       end
   | EInit u p ult nmd =>
       match ust (un s u) with
-      | UNone => Some (set_u s u (mkU UCreated 0 p ult nmd false false false None None 0 JW0 true [] 0 0 false))
+      | UNone => Some (set_u s u (mkU UCreated 0 p ult nmd false false false None None 0 JW0 true None [] 0 0 false))
       | _ => None
       end
   | ERevive u p =>
       let r := un s u in
       match ust r with
       | UTerm => if named r then
-                   Some (set_u s u (mkU UCreated 0 p (isult r) true false false false None (migt r) 0 JW0 true (cnt r) 0 0 false))
+                   Some (set_u s u (mkU UCreated 0 p (isult r) true false false false None (migt r) 0 JW0 true None (cnt r) 0 0 false))
                  else None
       | _ => None
       end
@@ -246,9 +250,9 @@ Definition step (s : st) (e : ev) : option st :=
             end
         | _ => (* suspend-class callbacks: cancellation is not acted upon *)
             match ust r with
-            | UCbS k 1 => if suspend_kind k then
-                            if m then Some (set_u s u (with_mig (with_ust r (UCbS k 2)) (migt r) 1))
-                            else Some (set_u s u (with_ust r (UCbS k 2)))
+            | UCbS k 0 => if suspend_kind k then
+                            if m then Some (set_u s u (with_mig (with_ust r (UCbS k 1)) (migt r) 1))
+                            else Some (set_u s u (with_ust r (UCbS k 1)))
                           else None
             | _ => None
             end
@@ -293,6 +297,18 @@ Definition step (s : st) (e : ev) : option st :=
         | 0%Z, UCbS k 1 => if yield_kind k then Some (set_u s u (with_ust_ost r (UCbS k 2) 0)) else None
         | 0%Z, UBlocked => Some (set_u s u (with_ust_ost r UResuming 0))
         | 2%Z, UCbS k 2 => if suspend_kind k then Some (set_u s u (with_ust_ost r UBlocked 2)) else None
+        | 2%Z, UCbS KResumeSuspendTo 1 =>
+            (* caller and resumed unit share the pool: no counter update; the count held for the
+               resumed unit now stands for the caller *)
+            match cbother r with
+            | Some o =>
+                let ro := un s o in
+                if Nat.eqb (upool r) (upool ro) && inb (upool r) (cnt ro) then
+                  Some (mkS (upd (upd (un s) o (with_cnt ro (remove1 (upool r) (cnt ro))))
+                                 u (with_cnt (with_ust_ost r UBlocked 2) (upool r :: cnt r))) (po s) (seen s))
+                else None
+            | None => None
+            end
         | 3%Z, UCbS KExit _ | 3%Z, UCbS KResumeExitTo _ => Some (set_u s u (with_ust_ost r UTerm 3))
         | 3%Z, UCancelling => if jw_settled (un s) (jw r) || negb (isult r)
                               then Some (set_u s u (with_ust_ost r UTerm 3)) else None
@@ -330,16 +346,8 @@ Definition step (s : st) (e : ev) : option st :=
           if jw_settled (un s) (jw r) then Some (set_u s u (with_ust r (UCbS k 0))) else None
       | KExit, _ | KResumeExitTo, _ => None
       | KResumeSuspendTo, URunning =>
-          (* same pool: no counter update; the count held for the resumed unit now stands for the caller *)
           match other with
-          | Some o =>
-              let ro := un s o in
-              if Nat.eqb (upool r) (upool ro) then
-                if inb (upool r) (cnt ro) then
-                  Some (mkS (upd (upd (un s) o (with_cnt ro (remove1 (upool r) (cnt ro))))
-                                 u (with_cnt (with_ust r (UCbS k 1)) (upool r :: cnt r))) (po s) (seen s))
-                else None
-              else Some (set_u s u (with_ust r (UCbS k 0)))
+          | Some o => Some (set_u s u (with_other (with_ust r (UCbS k 0)) (Some o)))
           | None => None
           end
       | _, URunning => Some (set_u s u (with_ust r (UCbS k 0)))
@@ -357,9 +365,14 @@ Definition step (s : st) (e : ev) : option st :=
       if Z.eqb old (nb pr) then
         if inc then
           match ust r with
-          | UCbS k 0 =>
-              if suspend_kind k && Nat.eqb (upool r) p then
-                Some (mkS (upd (un s) u (with_cnt (with_ust r (UCbS k 1)) (p :: cnt r)))
+          | UCbS k 1 =>
+              if suspend_kind k && Nat.eqb (upool r) p && Nat.eqb (migs r) 0 &&
+                 match k, cbother r with
+                 | KResumeSuspendTo, Some o => negb (Nat.eqb (upool r) (upool (un s o)))
+                 | KResumeSuspendTo, None => false
+                 | _, _ => true
+                 end then
+                Some (mkS (upd (un s) u (with_cnt (with_ust r (UCbS k 2)) (p :: cnt r)))
                           (upd (po s) p (mkP (q pr) (old + 1))) (seen s))
               else None
           | URunning => (* ABT_thread_yield_to: the caller pre-increments its own pool *)
@@ -384,7 +397,7 @@ Definition step (s : st) (e : ev) : option st :=
       match ust r with
       | URunning => if fresh r then
           Some (set_u s u (mkU URunning (ost r) (upool r) (isult r) (named r) (rjoin r) (rcancel r) (rmig r) (link r)
-                               (migt r) (migs r) (jw r) false (cnt r) (S (starts r)) (fins r) (adopted r)))
+                               (migt r) (migs r) (jw r) false (cbother r) (cnt r) (S (starts r)) (fins r) (adopted r)))
           else None
       | _ => None
       end
@@ -393,7 +406,7 @@ Definition step (s : st) (e : ev) : option st :=
       match ust r with
       | URunning => if fresh r then None else
           Some (set_u s u (mkU UFinished (ost r) (upool r) (isult r) (named r) (rjoin r) (rcancel r) (rmig r) (link r)
-                               (migt r) (migs r) (jw r) false (cnt r) (starts r) (S (fins r)) (adopted r)))
+                               (migt r) (migs r) (jw r) false (cbother r) (cnt r) (starts r) (S (fins r)) (adopted r)))
       | _ => None
       end
   | EFree u =>
